@@ -32,6 +32,9 @@ pub enum Front {
 pub enum FsOp {
     Open { h: u8, path: String, read: bool, write: bool, append: bool, truncate: bool, create: bool, create_new: bool, front: Front },
     Close { h: u8 },
+    /// File::try_clone of the handle in slot `h` into slot `new` (generated for write-only append handles, where
+    /// it makes no difference whether the two descriptors share one cursor)
+    TryClone { h: u8, new: u8 },
     WriteAt { h: u8, off: u64, len: u32, tag: u32 },
     ReadAt { h: u8, off: u64, len: u32 },
     Write { h: u8, len: u32, tag: u32 },
@@ -68,6 +71,7 @@ impl FsOp {
         match self {
             FsOp::Open { .. } => "open",
             FsOp::Close { .. } => "close",
+            FsOp::TryClone { .. } => "try_clone",
             FsOp::WriteAt { .. } => "write_at",
             FsOp::ReadAt { .. } => "read_at",
             FsOp::Write { .. } => "write",
@@ -242,6 +246,24 @@ impl Ops {
             FsOp::Close { h } => {
                 self.handles.remove(h);
                 Obs::Unit
+            }
+            FsOp::TryClone { h, new } => {
+                if h == new {
+                    return Ok(Obs::Unjudged);
+                }
+                self.handles.remove(new);
+                let r = match self.handles.get(h) {
+                    None => return Ok(Obs::Unjudged),
+                    Some(RealHandle::Std(f)) => f.try_clone().map(RealHandle::Std),
+                    Some(RealHandle::Tokio(f)) => aw!(f.try_clone()).map(RealHandle::Tokio),
+                };
+                match r {
+                    Ok(f) => {
+                        self.handles.insert(*new, f);
+                        Obs::Unit
+                    }
+                    Err(e) => Obs::Err(ek_of(&e)),
+                }
             }
             FsOp::WriteAt { h, off, len, tag } => {
                 let data = pattern(*tag, *len);
@@ -595,6 +617,7 @@ pub fn exec_model(m: &mut Model, op: &FsOp) -> Obs {
             m.close(*h);
             Obs::Unit
         }
+        FsOp::TryClone { h, new } => m.try_clone(*h, *new),
         FsOp::WriteAt { h, off, len, tag } => m.write_at(*h, *off, &pattern(*tag, *len)),
         FsOp::ReadAt { h, off, len } => m.read_at(*h, *off, *len as usize),
         FsOp::Write { h, len, tag } => m.write(*h, &pattern(*tag, *len)),
